@@ -78,18 +78,25 @@ static void run(int tier, int prog) {
   case FM_TLOCK: {
     myth_thread_t h = 0;
     if (cur->a) { h = myth_create(holder, (void *)(long)(cur->a == 1 ? 1 : 3)); while (!holder_has && !holder_done) mv_wait_until_changed(&holder_has, sizeof(int)); }
-    struct timespec dl; deadline(&dl, cur->dl);
+    struct timespec dl, t_start; deadline(&dl, cur->dl); mv_clock_read(&t_start);
     int r = myth_mutex_timedlock(&m, &dl);
     MV_CHECK(r == 0 || r == ETIMEDOUT, "timedlock returned %d", r);
     if (r == 0) { occ++; mv_point(&occ, sizeof(int)); MV_CHECK(!cur->a || holder_done, "timedlock succeeded while the holder still owns the mutex"); occ--; myth_mutex_unlock(&m); mv_cover(1); }
-    else { MV_CHECK(cur->a != 0, "timedlock timed out although the mutex was free at its first attempt"); MV_CHECK(after(&dl), "timedlock timed out before its deadline"); mv_cover(2); }
+    else {
+      MV_CHECK(cur->a != 0, "timedlock timed out although the mutex was free at its first attempt"); MV_CHECK(after(&dl), "timedlock timed out before its deadline"); mv_cover(2);
+      /* one worker, holder needs the worker once to release, deadline at least 3 clock reads away, no clock jump:
+         every round of the wait must hand the worker to the runnable holder, so an attempt before the deadline finds the mutex free */
+      struct timespec n2; mv_clock_read(&n2);
+      MV_CHECK(!(cur->W == 1 && cur->a == 1 && cur->dl >= 2 && ts_ns(&n2) - ts_ns(&t_start) < 1000000000L),
+	       "timedlock timed out on one worker although the runnable holder only needed the worker once to release (the waiting thread kept the worker to itself)");
+    }
     if (h) myth_join(h, 0);
     mv_obs("tlock r=%d", r);
     break; }
   default: {
     myth_thread_t t = myth_create(target, (void *)(long)(cur->a == 0 ? 0 : cur->a == 1 ? 1 : 3));
     if (cur->a == 0) { while (mythv_desc_status(t) != 3) mv_wait_until_changed(mythv_desc_status_ptr(t), sizeof(int)); }
-    struct timespec dl; deadline(&dl, cur->dl);
+    struct timespec dl, tj_start; deadline(&dl, cur->dl); mv_clock_read(&tj_start);
     void * v = 0;
     int r = myth_timedjoin(t, &v, &dl);
     if (r == 0) { MV_CHECK(tfin == 1 && v == (void *)777, "timedjoin succeeded before the target finished or delivered a wrong value"); mv_cover(3); }
@@ -98,6 +105,9 @@ static void run(int tier, int prog) {
       MV_CHECK(cur->a != 0, "timedjoin timed out although the target had finished before the call");
       MV_CHECK(after(&dl), "timedjoin gave up before its deadline");
       mv_cover(4);
+      { struct timespec n2; mv_clock_read(&n2);
+	MV_CHECK(!(cur->W == 1 && cur->a == 1 && cur->dl >= 2 && ts_ns(&n2) - ts_ns(&tj_start) < 1000000000L),
+		 "timedjoin timed out on one worker although the runnable target only needed the worker once to finish (the waiting thread kept the worker to itself)"); }
       myth_join(t, &v); MV_CHECK(v == (void *)777, "join after timed-out timedjoin delivered a wrong value");
     }
     mv_obs("tjoin r=%d", r);
